@@ -427,6 +427,31 @@ def rules(report, index):
                 elif isinstance(v, ast.List) and len(v.elts) == 1 and \
                         isinstance(v.elts[0], ast.Starred):
                     how, src = 'a shallow copy', v.elts[0].value
+                elif isinstance(v, (ast.ListComp, ast.GeneratorExp)) and \
+                        len(v.generators) == 1 and isinstance(
+                        v.generators[0].target, ast.Name):
+                    # [x for x in SRC] copies one level, [list(x) for x in
+                    # SRC] / [x[:] ...] two; anything nested deeper in the
+                    # shared value stays shared
+                    g0 = v.generators[0]
+                    tname = g0.target.id
+                    e0 = v.elt
+                    levels = None
+                    if isinstance(e0, ast.Name) and e0.id == tname:
+                        levels = 1
+                    elif isinstance(e0, ast.Call) and len(e0.args) == 1 \
+                            and isinstance(e0.args[0], ast.Name) and \
+                            e0.args[0].id == tname and ast.unparse(
+                            e0.func).split('.')[-1] in SHALLOW:
+                        levels = 2
+                    elif isinstance(e0, ast.Subscript) and isinstance(
+                            e0.slice, ast.Slice) and isinstance(
+                            e0.value, ast.Name) and e0.value.id == tname:
+                        levels = 2
+                    if levels is None:
+                        continue
+                    how, src = 'a shallow copy', g0.iter
+                    copy_levels = levels
                 else:
                     how = 'an alias'
                 key = None
@@ -440,6 +465,17 @@ def rules(report, index):
                     continue
                 val, nested, top = shared[key]
                 nshared += 1
+                if how == 'a shallow copy' and isinstance(
+                        v, (ast.ListComp, ast.GeneratorExp)):
+                    # mutables nested deeper than the copied levels
+                    def deepest(node, d=1):
+                        best = d if isinstance(node, MUT) else 0
+                        for ch in ast.iter_child_nodes(node):
+                            if isinstance(ch, (ast.List, ast.Tuple, ast.Dict,
+                                               ast.Set)):
+                                best = max(best, deepest(ch, d + 1))
+                        return best
+                    nested = deepest(val) > copy_levels
                 if how == 'a shallow copy' and not nested:
                     r2.ok('self.%s = %s' % (attr, ast.unparse(v)),
                           'copy of a flat container')
@@ -457,6 +493,10 @@ def rules(report, index):
                     if how == 'an alias' and (bt == prefix or deep):
                         hits.append(s)
                     elif how == 'a shallow copy' and deep:
+                        if isinstance(v, (ast.ListComp, ast.GeneratorExp)) \
+                                and bt[len(prefix):].count('[') + bt[len(
+                                    prefix):].count('.') < copy_levels:
+                            continue    # writes into a copied level
                         hits.append(s)
                 r2.check(
                     not hits, '%s.%s initialised from shared %s' % (
